@@ -9,7 +9,8 @@ VAR = ['Integer', 'Float']
 
 
 def obligations(ctx):
-    obs = []
+    from .c18 import premise_number_from
+    obs = [premise_number_from('C09')]      # first, so that it runs alongside everything else
     ocs = (True, False)
     for oc in ocs:
         for k in BIN:
